@@ -35,6 +35,19 @@ func c03Run(raw json.RawMessage) (Case, error) {
 	atDeadline, backlog, decidedByTick := false, false, false
 	var prev [][]collBufEntry
 	for _, o := range res.Obs {
+		if o.Kind == "ltick" && prev != nil {
+			for w, l := range o.LeftW {
+				if len(l) > 0 {
+					decidedByTick = true
+				}
+				for _, e := range prev[w] {
+					if d := o.Now - e.SendBy; d >= -1 && d <= 1 {
+						tags = appendOnce(tags, "real-ticker-within-1ns-of-deadline")
+						atDeadline = true
+					}
+				}
+			}
+		}
 		if o.Kind == "tick" && prev != nil {
 			for _, e := range prev[o.W] {
 				switch o.Now - e.SendBy {
